@@ -224,8 +224,8 @@ def io_cat_value(rng, pins, other, shape):
         return Cat(*(pins[i] for i in idx))
     if shape == "two_ports":
         return Cat(pins[0:k], other, pins[k:w])
-    if shape == "part":                         # a proper part of the port, the rest stays unused
-        return Cat(pins[0:k]) if rng.random() < 0.5 else pins[k:w]
+    if shape == "part":                         # a proper part of the port; the caller decides about the rest
+        return (Cat(pins[0:k]), pins[k:w]) if rng.random() < 0.5 else (pins[k:w], pins[0:k])
     if shape == "overlap":                      # bit k-1 (or k) occurs in both slices
         return Cat(pins[0:k], pins[k - 1:w]) if rng.random() < 0.5 else Cat(pins[k - 1:w], pins[0:k])
     if shape == "twice":
@@ -245,7 +245,7 @@ def gen_design(rng, hist, *, instances=True, memories=True, iobufs=True, layouts
     """returns a `Built`: .top .ports .foreign (expected-instance S-expressions) .inputs .domains .pool ...
 
     `io_cat` and `src_attrs` are off by default and then draw nothing from `rng` (the streams of the other
-    checks that use this generator are unchanged).  `io_cat`: extra I/O buffers and instances whose I/O value
+    checks that use this generator are unchanged).  `io_cat` (needs `iobufs`): extra I/O buffers and instances whose I/O value
     is a concatenation of slices of one (or two) `IOPort`s, a tenth of them with a bit repeated (inside one
     value, or in two separate uses): `.io_dup` tells whether some I/O port bit is used twice anywhere in the
     design (amaranth must refuse exactly those).  `src_attrs`: some instances get an attribute literally
@@ -551,7 +551,7 @@ def gen_design(rng, hist, *, instances=True, memories=True, iobufs=True, layouts
                 note("iobuf_o_oe")
 
         # I/O values that are concatenations of slices of a port (optional, see `io_cat`)
-        if io_cat and (iobufs or instances) and rng.random() < 0.25:
+        if io_cat and iobufs and rng.random() < 0.25:
             fit = lambda e, n: Cat(e, Const(0, n))[:n]
             dup = rng.choice(IO_CAT_DUP + ["two_uses"]) if rng.random() < 0.15 else None
             if dup in IO_CAT_DUP:
@@ -567,9 +567,11 @@ def gen_design(rng, hist, *, instances=True, memories=True, iobufs=True, layouts
                 other = IOPort(rng.randint(1, 2), name=rng.choice(["pins", "pad", "b"]))
                 ioports.append(other)
             val = io_cat_value(rng, pins, other, shape)
+            rest = None
+            if shape == "part":
+                val, rest = val
             n = len(val)
-            kinds = (["buf_o", "buf_o", "buf_o_oe", "buf_i", "buf_io"] if iobufs else []) + \
-                    (["inst_o", "inst_o", "inst_io", "inst_i"] if instances else [])
+            kinds = ["buf_o", "buf_o", "buf_o_oe", "buf_i", "buf_io"] + (["inst_o", "inst_o", "inst_io", "inst_i"] if instances else [])
             kind = rng.choice(kinds)
             if kind in ("buf_i", "buf_io"):
                 tgt = Signal(n, name=rng.choice(NAMES))
@@ -599,9 +601,23 @@ def gen_design(rng, hist, *, instances=True, memories=True, iobufs=True, layouts
                         m.submodules += inst
                 b.foreign.append(f'(inst "\\\\{ty}" (params ) (attrs ) (ports ("\\\\D" i {n} -) ("\\\\pad" {d} {n} -)))')
                 note("instance")
+            if rest is not None:
+                # the other bits of the port get a separate, disjoint use (two uses of one port that must not be refused).
+                # Left unused they would be undriven bits of an `output` port wire when the part is driven: the top-level
+                # port is always the whole IOPort (recorded observation, see c07.witness_partial_output_ioport);
+                # beside an input-only use they may stay unused (driven by the module input)
+                if kind in ("buf_i", "inst_i") and rng.random() < 0.4:
+                    note("io_cat_rest=unused_input_bits")
+                elif rng.random() < 0.6:
+                    m.submodules += IOBufferInstance(rest, o=fit(g_comb.expr(1), len(rest)))
+                    note("io_cat_rest=o")
+                else:
+                    t3 = Signal(len(rest), name=rng.choice(NAMES))
+                    m.submodules += IOBufferInstance(rest, i=t3)
+                    note("io_cat_rest=i")
             if dup == "two_uses":
                 j = rng.randrange(len(pins))
-                if rng.random() < 0.5 or not iobufs:
+                if rng.random() < 0.5:
                     m.submodules += IOBufferInstance(pins[j], o=fit(g_comb.expr(1), 1))
                 else:
                     t2 = Signal(1, name=rng.choice(NAMES))
